@@ -903,11 +903,13 @@ def generate_all():
     for m in sorted(pkgutil.iter_modules([os.path.join(here, "kernels")])):
         mod = importlib.import_module("kernels." + m.name)
         parts = []
+        # a kernel module may bring its own translator (`TRANSLATE(k) -> Lean text`), e.g. tools/ktx_words.py
+        tr_fn = getattr(mod, "TRANSLATE", translate)
         for k in mod.KERNELS:
             try:
-                parts.append(translate(k))
+                parts.append(tr_fn(k))
                 n += 1
-            except (TranslateError, KeyError, IndexError, ValueError, TypeError) as e:
+            except (TranslateError, KeyError, IndexError, ValueError, TypeError, AttributeError, AssertionError) as e:
                 errors.append({"table": f"{mod.LEAN_FILE}.{k.lean_name}", "error": f"kernel translation failed: {e}"[:300]})
                 # keep the project buildable; the tie theorem about this definition then fails
                 parts.append(f"/-- TRANSLATION FAILED: {str(e)[:200]} -/\ndef {k.lean_name} {k.params} : Option Unit := none\n")
